@@ -68,3 +68,26 @@ Qed.
 
 Lemma kernel_length n outrank : length (kernel n outrank) = n.
 Proof. unfold kernel. rewrite map_length, seq_length. reflexivity. Qed.
+
+(* every ranking produced by rank_values is accepted by the RankResult validator *)
+From SKC Require Import Base.QRank.
+Theorem rank_values_validate rev xs :
+  validate_rank (map Z.of_nat (rank_values rev xs)) = true.
+Proof.
+  apply validate_rank_iff.
+  set (l := map Z.of_nat (rank_values rev xs)). set (k := rank_count rev xs).
+  assert (Hin : forall r, In r l <-> (1 <= r <= Z.of_nat k)%Z).
+  { intros r. unfold l. rewrite in_map_iff. split.
+    - intros [n [<- Hn]]. apply rank_values_image in Hn. fold k in Hn. lia.
+    - intros Hr. exists (Z.to_nat r). split; [lia|]. apply rank_values_image. fold k. lia. }
+  assert (Hlen : length (dedupZ l) = k).
+  { assert (P : Permutation (dedupZ l) (map Z.of_nat (seq 1 k))).
+    { apply NoDup_Permutation.
+      - apply dedupZ_NoDup.
+      - apply FinFun.Injective_map_NoDup; [intros a b E; lia|apply seq_NoDup].
+      - intros x. rewrite dedupZ_In, Hin, in_map_iff. split.
+        + intros Hx. exists (Z.to_nat x). split; [lia|]. apply in_seq. lia.
+        + intros [n [<- Hn]]. apply in_seq in Hn. lia. }
+    rewrite (Permutation_length P), map_length, seq_length. reflexivity. }
+  intros r. rewrite Hlen. apply Hin.
+Qed.
